@@ -111,4 +111,11 @@ CHECKS = {
         design_ref="DESIGN.md §4 C17",
         note="Internal slot names (children, choices, itemset) are not generated as headers. 13 genuine defects found here were fixed in /repo; 3 remain open in known_findings.json (one is pinned by a test of the suite).",
     ),
+    "C18": dict(
+        level="fault_enumeration",
+        technique="fault-injection enumeration plus property-based generation: a scripted stand-in for the java executable on PATH (exit code, stderr, self-kill, sleep), a private TMPDIR and the working tree's CLI run as a subprocess; oracle = restated verdict table (codes 100/101/999, exception types, output file equal to the library result or untouched/removed, itemsets.csv) + expected cleaned message constructed by the stderr line grammar + empty TMPDIR and output directory",
+        text="The full product validator outcome {exit 0 silent, exit 0 + stderr, exit n>0 + stderr, killed by signal, java absent, real java + corrupt jar} x entry {library validate=True, CLI default, --json, --skip_validate, --odk_validate} x form {valid, valid with warnings, external choices, invalid} x output file {absent, pre-existing} is run on every quick run (240 cells; thorough doubles it with --pretty_print and adds the 100 s watchdog), then generated cases vary the stderr text (instance paths, kept paths, exception prefixes, stack lines, adjacent duplicates, non-ASCII), the exit status (1, 2, 3, 134, 255), the form (generated, md or xlsx) and the cell.",
+        design_ref="DESIGN.md §4 C18",
+        note="The stand-in records whether it was started, so --skip_validate and invalid forms are checked not to start it. Enketo is not exercised. Python-side crash points are not enumerated.",
+    ),
 }
